@@ -1,6 +1,8 @@
 """C01 — periodic positions / displacements are exact, wrapped, lattice-shift invariant."""
 from __future__ import annotations
 
+import os
+
 import numpy as np
 
 from .. import gen, geom, snap
@@ -19,6 +21,7 @@ RULE = (
     'a cell face or contains a hostile coordinate; distinct = SHA-1 of the input array.'
 )
 RULE += ' Added in rounds 8-10: slices / split parts not starting at frame 0 examined as trajectories of their own; chunks joined with extend() (the second chunk may repeat the previous last frame); a sixth of the cases shifted by up to thousands of cells.'
+RULE += ' Round 12 (thorough tier; quick with GV_HUGE=1): one trajectory of 11.3-12 million atom-frames (more than 256 MiB of coordinates): displacement bound, running sum against every frame, cumulative displacements against the unwrapped walk, position round trip.'
 ASSUMPTIONS = [
     'true per-step displacements stay below 0.4999 cell per coordinate (a step of exactly half a cell has no defined minimum image)',
     'equalities between floating-point results use 1e-9 (relative to the data); range [0,1) is checked strictly',
@@ -31,7 +34,12 @@ _state = {'ctx': None}
 
 
 def units(tier):
-    return [{'k': 'rand', 'i': i} for i in range(N_CASES[tier])]
+    out = [{'k': 'rand', 'i': i} for i in range(N_CASES[tier])]
+    # a trajectory whose coordinate array exceeds 256 MiB (11.3-12 million atom-frames); ~90 s and ~2 GB, so it is part
+    # of the thorough tier, and of the quick tier only on request (GV_HUGE=1)
+    if tier == 'thorough' or os.environ.get('GV_HUGE') == '1':
+        out += [{'k': 'huge', 'i': 0}]
+    return out
 
 
 def _range_contract(result, args, kwargs):
@@ -158,7 +166,50 @@ def frames_check(traj, X, ctx, what, rng):
     ctx.count(f'single_frame_access:{how}', len(got))
 
 
+def run_huge(unit, rng, ctx):
+    kind, rot, m = geom.random_lattice(rng)
+    N = int(rng.integers(1, 4))
+    T = int(rng.integers(11_300_000, 12_000_000)) // N + 1
+    steps = rng.uniform(-0.45, 0.45, size=(T, N, 3))
+    steps[0] = 0
+    U = np.cumsum(steps, axis=0)
+    U += rng.uniform(0, 1, size=(1, N, 3))
+    del steps
+    X = U - np.floor(U)
+    X[X == 1] = 0
+    traj = gen.make_trajectory(m, ['Li'] * N, X, presentation='plain')
+    what = f'{kind} {T} frames x {N} atoms ({X.nbytes / 2**20:.0f} MiB of coordinates)'
+    d = np.asarray(traj.displacements)
+    ok = d.shape == X.shape
+    ctx.check(ok, f'{what}: displacements have shape {d.shape}')
+    if ok:
+        ctx.check(float(np.abs(d).max()) <= 0.5 + 1e-12, f'{what}: a displacement component exceeds half a cell ({np.abs(d).max()!r})')
+        # running sum + first frame reproduces every frame modulo 1; the frame-to-frame steps are those of the walk
+        rs = np.cumsum(d, axis=0)
+        rs += X[:1]
+        rs -= X
+        rs -= np.round(rs)
+        worst = np.abs(rs).reshape(T, -1).max(axis=1)
+        t_bad = int(np.argmax(worst > 1e-9))
+        ctx.check(float(worst.max()) <= 1e-9, f'{what}: first frame + running sum of the displacements differs from frame {t_bad} by {worst[t_bad]:.3e} (modulo 1)')
+        del rs
+        cd = np.asarray(traj.cumulative_displacements)
+        ref = U - U[:1]
+        dev = np.abs(cd - ref).reshape(T, -1).max(axis=1)
+        t_bad = int(np.argmax(dev > 1e-7))
+        ctx.check(float(dev.max()) <= 1e-7, f'{what}: cumulative displacement at frame {t_bad} deviates from the unwrapped walk by {dev[t_bad]:.3e} (fractional)')
+        del cd, ref
+        p = np.asarray(traj.positions)
+        dd = np.abs(p - X)
+        dd = np.minimum(dd, 1 - dd)
+        ctx.check(bool(p.min() >= 0 and p.max() < 1) and float(dd.max()) <= 1e-9, f'{what}: positions after a displacement round trip differ from the input by {dd.max():.3e}')
+    ctx.count('trajectories_with_more_than_256_MiB_of_coordinates')
+    ctx.case(f'huge{unit["i"]}', True, sample={'kind': 'huge', 'frames': T, 'atoms': N, 'MiB': int(X.nbytes / 2**20)})
+
+
 def run_unit(unit, rng, ctx):
+    if unit.get('k') == 'huge':
+        return run_huge(unit, rng, ctx)
     kind, rot, m = geom.random_lattice(rng)
     T = int(rng.integers(1, 61))
     N = int(rng.integers(1, 7))
